@@ -211,6 +211,7 @@ type Gen struct {
 	boundaryPos int
 	hostilePos  int
 	whale       bool
+	hasAtom     bool
 }
 
 type didRef struct {
@@ -221,8 +222,9 @@ type didRef struct {
 func (g *Gen) addr(i int) string { return g.env.Accs[i%len(g.env.Accs)].Addr.String() }
 
 var topicPool = []string{"a", "a.", "a.b", "a.b-c", "A", "a_b", "ab", "b", "0", "topic-1", "topic-10", "t." + strings.Repeat("x", 68), strings.Repeat("Z", 70), "-", "._-"}
-var denomPool = []string{"dn", "dn1", "dn/x", "d", "dnx", "den:om", "DN", strings.Repeat("q", 90), "dn\x00x", "dn\x00", "ünï", "a b"}
-var tokenPool = []string{"x", "y", "x/y", "x\x00y", "1", "10", "tok", "T", strings.Repeat("k", 120), "\x00", "é"}
+// identifier pools: prefixes of one another, separators, case twins, white-space twins ("dn" / "dn " / " dn"), NUL, multi-byte
+var denomPool = []string{"dn", "dn1", "dn/x", "d", "dnx", "den:om", "DN", strings.Repeat("q", 90), "dn\x00x", "dn\x00", "ünï", "a b", "dn ", " dn", "dn\t", "d "}
+var tokenPool = []string{"x", "y", "x/y", "x\x00y", "1", "10", "tok", "T", strings.Repeat("k", 120), "\x00", "é", "x ", " x", "tok ", "1\n"}
 
 func GenerateScript(seed uint64, prop, tier string, env *Env) *Script {
 	rng := NewPRNG(seed ^ 0xA5A5_0000_0000_5A5A)
@@ -241,12 +243,16 @@ func GenerateScript(seed uint64, prop, tier string, env *Env) *Script {
 	s.Config.CrashEnum = g.p.CrashEnum
 	s.Config.CrashSample = g.p.CrashSamp
 	s.Config.Genesis.TimeUnix = []int64{1700000000, 946684800, 4102444800, 1}[rng.Pick([]int{6, 1, 1, 1})]
-	if rng.Chance(0.06) {
-		s.Config.Genesis.ZeroTime = true // every header carries the zero time (a clock that never started)
+	if prop == "C09" && rng.Chance(0.08) {
+		// every header carries the zero time (a clock that never started). CometBFT never produces such headers, so this
+		// is only used where the statement quantifies over every block sequence and wall-clock independence (C09); other
+		// properties would see artefacts of the impossible timestamp (e.g. PNFT genesis validation refuses created_at = 0)
+		s.Config.Genesis.ZeroTime = true
 	}
-	if rng.Chance(0.5) || prop == "C07" {
+	if rng.Chance(0.5) || prop == "C07" || prop == "C15" {
 		s.Config.Genesis.ExtraDenoms = []string{"uatom", "ibc/27394FB092D2ECCD56123C74F36E4C1F926001CEADA9CA97EA622B25F41E5EB2"}[:rng.Range(1, 2)]
 	}
+	g.hasAtom = len(s.Config.Genesis.ExtraDenoms) > 0
 	if rng.Chance(0.5) || prop == "C07" || prop == "C17" {
 		s.Config.Genesis.ExtraDenoms = append(s.Config.Genesis.ExtraDenoms, WhaleDenom)
 		g.whale = true
@@ -363,13 +369,21 @@ func (g *Gen) emit(t *TxSpec) int {
 	if t.Hold == 0 && g.rng.Chance(g.p.PHold) {
 		t.Hold = g.rng.Range(1, 3)
 	}
-	switch g.rng.Intn(12) {
+	switch g.rng.Intn(14) {
 	case 0:
 		t.FeeAmt = "0"
 	case 1:
 		t.FeeAmt = "1"
 	case 2:
 		t.FeeAmt = "987654321"
+	case 3:
+		if g.hasAtom { // the declared fee in another denomination
+			t.FeeDen, t.FeeAmt = "uatom", "7"
+		}
+	case 4:
+		if g.hasAtom { // a fee declared in two denominations
+			t.Fee2Den, t.Fee2Amt = "uatom", "50"
+		}
 	}
 	g.steps = append(g.steps, Step{K: "tx", ID: id, Tx: t})
 	g.specs[id] = t
